@@ -95,13 +95,14 @@ class Inst:
 
 
 class Block:
-    __slots__ = ("label", "insts", "succs", "term")
+    __slots__ = ("label", "insts", "succs", "term", "term_text")
 
     def __init__(self, label):
         self.label = label
         self.insts = []
         self.succs = []
         self.term = None
+        self.term_text = ""          # text of a `br` / `switch` terminator
 
 
 class Function:
@@ -266,10 +267,12 @@ def parse(text):
                         s += " " + lines[i].strip()
                         i += 1
                     cur.term = "switch"
+                    cur.term_text = s
                     cur.succs = [_unq(x) for x in re.findall(r'label %(' + _IDENT + r')', s)]
                     continue
                 if s.startswith("br "):
                     cur.term = "br"
+                    cur.term_text = s
                     cur.succs = [_unq(x) for x in re.findall(r'label %(' + _IDENT + r')', s)]
                     continue
                 if s.startswith("indirectbr "):
